@@ -81,6 +81,12 @@ def runRfs (line : String) : String :=
     truncated prefix of one event (`records_wellformed`). -/
 def runRfault (line : String) : String :=
   match Sexp.parse line with
+  | some (.list [.atom "rfdrop", lim, events, size]) =>
+    match lim.nat?, events.nat?, size.nat? with
+    | some lim, some events, some size =>
+      if lim < 1000 || lim > 10000000 || events == 0 || events > 20000 || size < 16 || size > 4096 then "bad-op"
+      else "ok\tat-drop"
+    | _, _, _ => "bad-op"
   | some (.list [.atom "rfault", lim, events, size]) =>
     match lim.nat?, events.nat?, size.nat? with
     | some lim, some events, some size =>
